@@ -31,8 +31,10 @@ type Result struct {
 	Files    []string `json:"files"`
 	Sites    []Site   `json:"-"`
 	NumSites int      `json:"num_sites"`
-	Flagged  int      `json:"flagged_sites"`
-	UsesSync bool     `json:"uses_sync"`
+	// ExitSites counts the function-exit yields (functions that defer something).
+	ExitSites int  `json:"exit_sites"`
+	Flagged   int  `json:"flagged_sites"`
+	UsesSync  bool `json:"uses_sync"`
 	// Unowned lists constructs the simulator cannot schedule (the library's own
 	// goroutines, channel operations, select): they force the degraded mode.
 	Unowned []string `json:"unowned,omitempty"`
@@ -216,8 +218,29 @@ func Instrument(root string, plain bool) (*Result, error) {
 				edits = append(edits, edit{off: tf.Offset(st.Pos()), text: "zsimrt.Y(" + strconv.Itoa(id) + "); "})
 			}
 		}
+		// exit yields: a function that defers something (a Put, an Unlock, a restore)
+		// gets `defer zsimrt.Y(site)` as its FIRST deferred call, which therefore runs
+		// LAST — after the function's own deferred calls and before control is back
+		// in the caller. That is the window in which a returned value may still alias
+		// state that the deferred call has just handed back.
+		addExit := func(body *ast.BlockStmt) {
+			if body == nil || plain || !hasDirectDefer(body) {
+				return
+			}
+			pos := fset.Position(body.Rbrace)
+			id := len(res.Sites)
+			res.Sites = append(res.Sites, Site{File: filepath.ToSlash(f), Line: pos.Line, Flags: flagHeapWrite})
+			res.Flagged++
+			res.ExitSites++
+			nSites++
+			edits = append(edits, edit{off: tf.Offset(body.Lbrace) + 1, text: " defer zsimrt.Y(" + strconv.Itoa(id) + ");"})
+		}
 		ast.Inspect(af, func(n ast.Node) bool {
 			switch v := n.(type) {
+			case *ast.FuncDecl:
+				addExit(v.Body)
+			case *ast.FuncLit:
+				addExit(v.Body)
 			case *ast.BlockStmt:
 				for _, st := range v.List {
 					addSite(st)
@@ -439,6 +462,22 @@ func stmtFlags(st ast.Stmt, own map[string]bool, all map[string]map[string]bool)
 		})
 	}
 	return fl
+}
+
+// hasDirectDefer reports whether the function body contains a defer statement of
+// its own (not one inside a nested function literal).
+func hasDirectDefer(body *ast.BlockStmt) bool {
+	found := false
+	ast.Inspect(body, func(n ast.Node) bool {
+		switch n.(type) {
+		case *ast.FuncLit:
+			return false
+		case *ast.DeferStmt:
+			found = true
+		}
+		return !found
+	})
+	return found
 }
 
 func heapLHS(e ast.Expr) bool {
